@@ -126,28 +126,6 @@ Definition set_ins (k : Z) (ks : list val) : list val := if set_has k ks then ks
 Definition set_del (k : Z) (ks : list val) : list val :=
   match remove_first k ks with Some r => r | None => ks end.
 
-Inductive mop :=
-(* list: the methods of listMethods (library.go) *)
-| LAppend (v : val) | LClear | LExtend (vs : list val) | LInsert (i : Z) (v : val)
-| LPop (i : option Z) | LRemove (a : Z)
-(* list: interpreter opcodes SETINDEX (x[i] = v) and INPLACE_ADD (x += iterable) *)
-| LSetIndex (i : Z) (v : val) | LInplaceAdd (vs : list val)
-(* list: Go API  List.Append / Clear / SetIndex *)
-| GoLAppend (v : val) | GoLClear | GoLSetIndex (i : nat) (v : val)
-(* dict: the methods of dictMethods *)
-| DClear | DPop (k : Z) (d : option val) | DPopitem | DSetdefault (k : Z) (d : val)
-| DUpdate (kvs : list (Z * val))
-(* dict: SETINDEX / SETDICT (d[k] = v), INPLACE_PIPE (d |= dict) *)
-| DSetKey (k : Z) (v : val) | DInplacePipe (kvs : list (Z * val))
-(* dict: Go API Dict.SetKey / Delete / Clear *)
-| GoDSetKey (k : Z) (v : val) | GoDDelete (k : Z) | GoDClear
-(* set: the methods of setMethods *)
-| SAdd (k : Z) | SClear | SDiscard (k : Z) | SPop | SRemove (k : Z) | SUpdate (kss : list (list Z))
-(* set: Go API Set.Insert / Delete / Clear *)
-| GoSInsert (k : Z) | GoSDelete (k : Z) | GoSClear
-(* x.f = v: no value kind of the model implements HasSetField *)
-| XSetField (f : nat) (v : val).
-
 Definition norm_index (i : Z) (n : nat) : Z := if (i <? 0)%Z then (i + Z.of_nat n)%Z else i.
 Definition in_range (i : Z) (n : nat) : bool := ((0 <=? i) && (i <? Z.of_nat n))%Z.
 
@@ -273,10 +251,6 @@ Definition noop_case (h : heap) (l : loc) (o : mop) : bool :=
   end.
 
 (* --------------------------------------------------- operation sequences *)
-
-Inductive step :=
-| SMut (l : loc) (o : mop)        (* any mutator applied to any object *)
-| SAlloc (o : obj).               (* a new object is created (by running code) *)
 
 Definition run_step (h : heap) (s : step) : heap :=
   match s with
